@@ -99,16 +99,17 @@ Section FileModel.
     | FOutOfFuel => (FOutOfFuel, w', file')
     end.
 
-  (* LZ4F_writeClose *)
-  Definition writeClose (w : wfile) (file : list byte) : fres unit * list byte :=
+  (* LZ4F_writeClose: returns what LZ4F_compressEnd returned (LZ4F_OK_NoError = 0 if an
+     earlier LZ4F_write had failed) *)
+  Definition writeClose (w : wfile) (file : list byte) : fres nat * list byte :=
     match w_err w with
     | None =>
       match cEnd (w_c w) (w_dstMax w) with
-      | (FOk tail, _) => (FOk tt, file ++ tail)
+      | (FOk tail, _) => (FOk (length tail), file ++ tail)
       | (FErr e, _) => (FErr e, file)
       | (FOutOfFuel, _) => (FOutOfFuel, file)
       end
-    | Some _ => (FOk tt, file)
+    | Some _ => (FOk O, file)
     end.
 
   (* a whole write session on an empty file: results of the LZ4F_write calls, the file *)
